@@ -51,6 +51,9 @@ pub fn check_views(rep: &mut Rep, w: &World, c: i128, s: TimeScale) {
     let e = ep(c, s);
     rep.sample("views", || format!("Epoch({}, {:?}): TAI {} TT {} UTC {:?}", c, s, t, tt, utc));
     let det = || format!("Epoch({}, {:?})", c, s);
+    if tol == 0 {
+        rep.log_event("views", || format!("\"c\":\"{}\",\"s\":\"{:?}\",\"tai\":\"{}\",\"utc\":\"{}\",\"jde_tai\":\"{}\",\"mjd_tt\":\"{}\",\"tt_j2k\":\"{}\",\"unix\":\"{}\"", c, s, t, utc.map(|u| u.to_string()).unwrap_or_else(|| "none".into()), t + MJD1900 + JD_OFF, tt + MJD1900, tt - J2K_S, utc.map(|u| (u - UNIX0).to_string()).unwrap_or_else(|| "none".into())));
+    }
     // duration-valued
     match guard(|| (e.to_jde_tai_duration(), e.to_jde_utc_duration(), e.to_jde_tt_duration(), e.to_mjd_tt_duration(), e.to_tt_since_j2k(), e.to_tt_duration(), e.to_tai_duration(), e.to_utc_duration())) {
         Err(p) => rep.fail(&format!("dur-views/panic/{}", p.class()), None, || format!("{} duration views panicked: {}", det(), p.msg)),
